@@ -181,6 +181,25 @@ pub fn terminals(lang: &Lang) -> Option<Vec<Term>> {
         }
         // a token rule that is never used has no symbol of its own: not a terminal of the language
     }
+    // external tokens of the generated families (their stub scanner recognises one fixed character)
+    if let Some(exts) = g["externals"].as_array() {
+        for e in exts {
+            if e["type"] == "SYMBOL" {
+                let n = e["name"].as_str().unwrap_or("");
+                let text = match n {
+                    "ext_bang" => "!",
+                    "ext_at" => "@",
+                    _ => continue,
+                };
+                if rules.contains_key(n) {
+                    continue;
+                }
+                if let Some(sym) = find(n, false) {
+                    out.push(Term { named: true, name: n.to_string(), text: text.to_string(), sym, extra: false });
+                }
+            }
+        }
+    }
     let mut texts = HashSet::new();
     for t in &out {
         if !texts.insert(t.text.clone()) {
